@@ -444,17 +444,14 @@ fn output_result_xml<T: serde::Serialize>(result: T) -> Result<()> {
 /// * `result` - A serde serializable result.
 #[cfg(feature = "bson")]
 fn output_result_bson_hex<T: serde::Serialize>(result: T) -> Result<()> {
-    let bson = bson::to_bson(&result)?;
+    // Straight to bytes: going through `bson::to_bson` first would turn a map whose only key is
+    // an extended-JSON marker (e.g. a server rule named `$numberLong`) into another BSON type.
+    // A value that is not a document is reported as an error by the serializer.
+    let bytes = bson::to_vec(&result)?;
 
-    if let bson::Bson::Document(document) = bson {
-        let bytes = bson::to_vec(&document)?;
+    println!("{}", hex::encode(bytes));
 
-        println!("{}", hex::encode(bytes));
-
-        Ok(())
-    } else {
-        panic!("Failed to convert result to BSON Hex (BSON_DOCUMENT_UNAVAILABLE)");
-    }
+    Ok(())
 }
 
 /// Output the result as a BSON object encoded as a base64 string.
@@ -465,17 +462,12 @@ fn output_result_bson_hex<T: serde::Serialize>(result: T) -> Result<()> {
 fn output_result_bson_base64<T: serde::Serialize>(result: T) -> Result<()> {
     use base64::Engine;
 
-    let bson = bson::to_bson(&result)?;
+    // See `output_result_bson_hex`.
+    let bytes = bson::to_vec(&result)?;
 
-    if let bson::Bson::Document(document) = bson {
-        let bytes = bson::to_vec(&document)?;
+    println!("{}", base64::prelude::BASE64_STANDARD.encode(bytes));
 
-        println!("{}", base64::prelude::BASE64_STANDARD.encode(bytes));
-
-        Ok(())
-    } else {
-        panic!("Failed to convert result to BSON Base64 (BSON_DOCUMENT_UNAVAILABLE)");
-    }
+    Ok(())
 }
 
 fn main() -> Result<()> {
